@@ -24,7 +24,7 @@ def run(ctx):
     ctx.tlc_mc("wire", "RespFramingMC", "RespFramingMC.cfg", consts={"D": d}, workers=8, timeout=900)
     # 2. programs + expected views: all programs of length <= n, and the programs of length
     #    n+1 that start with one of k seed-chosen ops
-    n, k = ctx.pick((2, 7), (3, 4))
+    n, k = ctx.pick((2, 5), (3, 4))
     rnd = random.Random(ctx.seed)
     first = rnd.sample(OPS, k)
     if os.environ.get("VERIF_C03_FIRST"):      # debugging aid: choose the first ops by hand
